@@ -217,8 +217,9 @@ func (pxy *UDPProxy) Run() (remoteAddr string, err error) {
 			}
 
 			if pxy.GetLimiter() != nil {
-				rwc = libio.WrapReadWriteCloser(limit.NewReader(rwc, pxy.GetLimiter()), limit.NewWriter(rwc, pxy.GetLimiter()), func() error {
-					return rwc.Close()
+				inner := rwc
+				rwc = libio.WrapReadWriteCloser(limit.NewReader(inner, pxy.GetLimiter()), limit.NewWriter(inner, pxy.GetLimiter()), func() error {
+					return inner.Close()
 				})
 			}
 
